@@ -300,7 +300,12 @@ def make_twin(ob: Ob, workdir: Path) -> Optional[Ob]:
            f'def {ob.func}__reach({params}) -> bool:\n    """\n'
            + ''.join(f'    {l}\n' for l in pres + raises)
            + f'    post: not _\n    """\n    return _m.{ob.func}({names})\n')
-    (workdir / f'{twin_mod}.py').write_text(src)
+    path = workdir / f'{twin_mod}.py'
+    with _IMPORT_LOCK:          # shards of one obligation share the twin module: write it once, atomically
+        if not path.exists():
+            tmp = workdir / f'.{twin_mod}.{_threading.get_ident()}.tmp'
+            tmp.write_text(src)
+            os.replace(tmp, path)
     t = dataclasses.replace(ob, id=ob.id + '.reach', module=twin_mod, func=ob.func + '__reach',
                             timeout=max(20, ob.timeout // 2), twin=False, known={})
     t.env = dict(ob.env)
